@@ -24,3 +24,13 @@ pub fn neighbours_arr(depth: u8, h: u64, include_center: bool) -> [Option<u64>; 
 pub fn bmoc_raw(b: &nested::bmoc::BMOC) -> Vec<u64> {
   b.entries.iter().copied().collect()
 }
+
+/// First use of every lazily initialised per-depth table, single-threaded, before any worker
+/// thread starts: the concurrent-first-use behaviour is the subject of C20 alone, the other
+/// checks must not depend on it.
+pub fn warm_up() {
+  for d in 0..=29u8 {
+    let _ = nested::get_or_create(d);
+    let _ = cdshealpix::largest_center_to_vertex_distance(d, 0.1, 0.1);
+  }
+}
